@@ -556,6 +556,19 @@ def replay(ob):
     fam.append(("graphene sheets 6.0 A apart, threshold 1.0 (sheets not bonded: two components)", st.repeat((1, 1, 2)), None, 1.0))
     fam.append(("Cs-H bonded, second H 3.0 A away, threshold 1.0 (3.0 - 2*0.31 = 2.38 > 1.0: two components)",
                 Atoms("CsH2", positions=[[2, 5, 5], [4.5, 5, 5], [7.5, 5, 5]], cell=[[20, 0, 0], [2, 19, 0], [1, 3, 21]], pbc=True), None, 1.0))
+    # atoms stored many lattice vectors away from their neighbours
+    for sh, nm in ((-4, "-4 a"), (5, "+5 a")):
+        c3 = cu.copy(); p = c3.get_positions(); p[2] += sh * c3.cell[0]; c3.set_positions(p)
+        fam.append(("fcc, one atom shifted by %s" % nm, c3, 3))
+    g3 = gr.copy(); p = g3.get_positions(); p[1] += 5 * g3.cell[0] - 5 * g3.cell[1]; g3.set_positions(p)
+    fam.append(("graphene, one atom shifted by 5a - 5b", g3, 2))
+    # partially periodic cells without vacuum: the copy shifted along a non-periodic cell vector must not count as an image
+    fe = bulk("Fe", "bcc", a=2.87, cubic=True) * (1, 1, 3); fe.set_pbc([True, True, False])
+    fam.append(("bcc Fe, three cells thick, pbc TTF, no vacuum", fe, 2, 0.3))
+    cc = Atoms("C2", positions=[[0, 0.8, 0.8], [1.3, 0.8, 0.8]], cell=[2.6, 1.6, 1.6], pbc=[True, False, False])
+    fam.append(("C chain in a tight cell, pbc TFF", cc, 1, 0.3))
+    n2 = Atoms("N2", positions=[[0.6, 0.6, 12], [0.6, 0.6, 13.1]], cell=[1.2, 1.2, 25], pbc=[False, False, True])
+    fam.append(("N2 in a narrow cell, pbc FFT", n2, 0, 0.3))
     for ent in fam:
         name, at, want = ent[:3]
         kw = {"cluster_threshold": ent[3]} if len(ent) > 3 else {}
